@@ -64,11 +64,12 @@ def id_token(name, nonce, client_id, rotated=False, iss_suffix=""):
 
 
 class ClientWorld:
-    def __init__(self, framework, names, cache_mode, pkce, openid, oauth1=False, rotate=False):
+    def __init__(self, framework, names, cache_mode, pkce, openid, oauth1=False, rotate=False, discovery=False):
         ms.install_clock()
         CLOCK.now = NOW0
         self.framework, self.names, self.cache_mode, self.pkce, self.openid = framework, list(names), cache_mode, pkce, openid
         self.oauth1 = oauth1          # the providers are OAuth 1 services (request token = the flow's state)
+        self.discovery = discovery    # the providers are registered with server_metadata_url only: endpoints come from the discovery document, fetched on first use
         self.rotate = rotate          # the provider signs ID tokens with a key that is not in the client's cached JWKS (key rotation)
         self.issued_secrets = {}      # OAuth 1: request token -> its secret, as the provider issued them
         self.sessions = [{}, {}]
@@ -102,7 +103,16 @@ class ClientWorld:
                   id_token_signing_alg_values_supported=["HS256"])
         if self.rotate:
             kw["jwks_uri"] = f"https://{name}.example/jwks"
+        if self.discovery:
+            for k in ("access_token_url", "authorize_url", "issuer", "id_token_signing_alg_values_supported"):
+                kw.pop(k)
+            kw["server_metadata_url"] = f"https://{name}.example/.well-known/openid-configuration"
         return kw
+
+    def _discovery_endpoint(self, url):
+        self.sent.append({"url": url, "form": {}, "discovery": True})
+        base = url.split("/.well-known/")[0]
+        return {"issuer": base, "authorization_endpoint": base + "/authorize", "token_endpoint": base + "/token", "id_token_signing_alg_values_supported": ["HS256"]}
 
     def _setup_flask(self):
         from flask import Flask
@@ -132,6 +142,8 @@ class ClientWorld:
                 return httpx.Response(status, text=text)
             if request.url.path == "/jwks":
                 return httpx.Response(200, json=self._jwks_endpoint())
+            if request.url.path.startswith("/.well-known/"):
+                return httpx.Response(200, json=self._discovery_endpoint(str(request.url)))
             body = self._token_endpoint(str(request.url), request.content.decode())
             return httpx.Response(400 if "error" in body else 200, json=body)
         for n in self.names:
@@ -189,9 +201,9 @@ class ClientWorld:
                 r._content = text.encode()
                 r.headers["Content-Type"] = "application/x-www-form-urlencoded"
                 return r
-            if urlparse(req.url).path == "/jwks":
+            if urlparse(req.url).path == "/jwks" or urlparse(req.url).path.startswith("/.well-known/"):
                 r.status_code = 200
-                r._content = json.dumps(self._jwks_endpoint()).encode()
+                r._content = json.dumps(self._jwks_endpoint() if urlparse(req.url).path == "/jwks" else self._discovery_endpoint(req.url)).encode()
                 r.headers["Content-Type"] = "application/json"
                 return r
             payload = self._token_endpoint(req.url, body)
